@@ -290,6 +290,34 @@ def _starting_labels(ctx, f, fit):
             return k[1] if k[0] == "const" else None
         return None
 
+    TRAIN = ("attr", ("param", f.params[1]), "train_fdr")
+
+    def ul_fdr(lt):
+        if lt[0] == "mcall" and lt[2] == "_update_labels":
+            k = dict(lt[4]).get("eval_fdr")
+            if k is None and len(lt[3]) >= 2:
+                k = lt[3][1]
+            return k if k is not None else ("default", 0.01)
+        if lt[0] == "mcall" and lt[2] == "_find_best_feature":
+            k = dict(lt[4]).get("eval_fdr")
+            if k is None and lt[3]:
+                k = lt[3][0]
+            return k
+        return None
+
+    bad_fdr = []
+    for x in facts:
+        for t in walk_term(x["lab"]):
+            if isinstance(t, tuple) and t and t[0] == "mcall" and t[2] in (
+                    "_update_labels", "_find_best_feature"):
+                if ul_fdr(t) != TRAIN:
+                    bad_fdr.append((x["where"][-1] if x["where"] else "",
+                                    t[2], show(ul_fdr(t), 40)))
+    ctx.check(not bad_fdr, "C07a-labels-at-train-fdr", f,
+              "starting labels (and the search for the best feature) use "
+              "the model's train_fdr on every path",
+              f"(path, call, threshold used): {bad_fdr}: the positives are "
+              "not the targets accepted at the training FDR", node=f.node)
     explicit = [x for x in facts if x["desc"][0] == "const"]
     auto = [x for x in facts if any(
         isinstance(t, tuple) and t and t[0] == "mcall"
@@ -422,8 +450,12 @@ def _best_feature_loop(ctx, f):
             di = 2 if is_m else 3
             dterm = kws.get("desc", args[di] if len(args) > di else None)
             sc = kws.get("scores", args[0] if args else None)
+            fi = 1 if is_m else 2
+            fterm = kws.get("eval_fdr", args[fi] if len(args) > fi else None)
+            p_fdr = [p for p in f.params if p != "self"][0]
             ok_l = dterm == loop_elem and sc is not None and any(
-                x == feat for x in walk_term(sc))
+                x == feat for x in walk_term(sc)) and fterm == (
+                    "param", p_fdr)
         ctx.check(ok_l, "C07a-labels-of-best", f,
                   "the labels returned are those of the winning feature in "
                   "the winning direction",
